@@ -4,7 +4,7 @@
    execution only. *)
 From Coq Require Import List NArith ZArith Bool Arith.
 Import ListNotations.
-From Stam Require Import Base.Sx Model.Offset Model.Store Model.Loader Model.Csv Spec.CsvSpec Proofs.Loader Proofs.Csv.
+From Stam Require Import Base.Sx Model.Offset Model.Store Model.Loader Model.Csv Spec.CsvSpec Proofs.Loader Proofs.Csv Proofs.CsvSet.
 
 (* splitting a column on ';' gives back the values that were joined, for any number of values *)
 Theorem C15_split_join : forall l, (forall x, In x l -> has_semi x = false) -> l <> [] ->
@@ -70,6 +70,14 @@ Theorem C15_name_temp : forall plain temp h, tok_fits h ->
 Proof. exact ref_of_temp_name. Qed.
 Theorem C15_name_set : forall t, tok_fits t -> set_ref_of_name (name_set t) = Some (ById t).
 Proof. exact set_ref_of_name_set. Qed.
+
+(* the data set files: saving a set (key rows, then data rows with the value as text) and
+   loading the file gives a set with the same id, the same keys in the same order, the same data
+   items under the same ids and keys, and the same value text - for every set whose keys and
+   data carry distinct public ids (removed keys and data items included: ranks, not handles) *)
+Theorem C15_set_file_roundtrip : forall d rows, dset_ok d -> save_set d = Some rows ->
+  exists d', load_set (name_set (d_id d)) rows = Some d' /\ content_set d' = content_set d.
+Proof. exact set_file_roundtrip. Qed.
 
 (* the known classes are real failures of the full property *)
 Theorem C15_tempid_refuted :
